@@ -1201,12 +1201,19 @@ func (fc *FuncCtx) callByContract(con *Contract, ref *FuncRef, fn *types.Func, a
 		env.bound[g.Name] = fc.fresh("cg_"+g.Name, so)
 		fc.lastCalleeGhosts[g.Name] = env.bound[g.Name]
 	}
+	// a postcondition of the callee that cannot be translated at this call site (it applies a callback
+	// that is not a pure function here) is simply not assumed: sound, the result stays unconstrained
 	if con.Returns != nil && len(results) > 0 {
-		v := fc.spec(con.Returns, env)
-		st.assume(fc.equal(results[0], v))
+		if v, ok := fc.specTry(con.Returns, env); ok {
+			st.assume(fc.equal(results[0], v))
+		} else {
+			fc.Assumed["note: the returns clause of "+con.Key+" is not usable at a call site in "+fc.Ref.Key+" (callback is not a pure function there); result left unconstrained"] = true
+		}
 	}
 	for _, e := range con.Ensures {
-		st.assume(fc.spec(e.Expr, env))
+		if t, ok := fc.specTry(e.Expr, env); ok {
+			st.assume(t)
+		}
 	}
 	// callbacks that are closures over functions under contract: effects and panics of the calls the callee made
 	for _, w := range wraps {
@@ -1497,4 +1504,15 @@ func (fc *FuncCtx) checkLikeArg(like string, fv *FuncVal) string {
 		return ""
 	}
 	return "unsupported function value"
+}
+
+// specTry translates a spec expression; ok=false (and no error recorded) if it does not translate.
+func (fc *FuncCtx) specTry(e SExpr, env *SpecEnv) (Term, bool) {
+	n := len(fc.specErrs)
+	t := fc.spec(e, env)
+	if len(fc.specErrs) > n {
+		fc.specErrs = fc.specErrs[:n]
+		return t, false
+	}
+	return t, true
 }
